@@ -511,6 +511,18 @@ func regGen(r *rand.Rand, n int, emit func(core.Case)) {
 		paths := []string{"p1", "p2", "p3", "p4"}
 		for j := range files {
 			files[j] = regRandFile(r, paths[r.IntN(len(paths))])
+			// a twin: the same package and declarations under another path, with some declarations renamed, so that
+			// equal (extended message, number) pairs and equal full names meet under different names and kinds
+			if j > 0 && r.IntN(3) == 0 {
+				src := files[r.IntN(j)]
+				tw := regFile{Path: paths[r.IntN(len(paths))], Pkg: src.Pkg, Decls: append([]regDecl(nil), src.Decls...)}
+				for d := range tw.Decls {
+					if tw.Decls[d].K != "msg" && r.IntN(2) == 0 {
+						tw.Decls[d].N = tw.Decls[d].N + "2"
+					}
+				}
+				files[j] = tw
+			}
 		}
 		// the names worth asking about
 		var names [][]string
